@@ -3,18 +3,38 @@ from __future__ import annotations
 
 import copy
 import math
+from fractions import Fraction
+from unittest import mock
+
 import numpy as np
+import rpylib.grid.spatial as spatial
 
 from .. import zoo
 from ..common import w, wl, wll, rd, rdl, rdll, close, fr
 
 RULE = ("structured: 4 model families x parameter draws (all CGMY branches) x 6 grid constructors x h x 0..k refinements "
         "(+ dims 1..3 for the model-free constructors); synthetic: random dyadic axes refined by M and by CTMCGrid.refine. "
+        "uniform constructor with explicit bounds (the real __init__ with only compute_truncation replaced): every pair of point counts "
+        "0..3 on/off the lattice of h, random dyadic (all float operations exact -> compared exactly) and decimal (2^-40) bounds, the two "
+        "raising classes (> 1e8 points, negative count), dims 1..3; the un-patched constructor is tied to M by repeating its root search; "
+        "np.linspace itself vs M (n = 0, 1, 2, ..., 33, increasing and decreasing). "
+        "object histories: two objects from equal arguments, refine / deepcopy / refine the copy / refine the original again. "
+        "edge arguments in every run: fixed nb_of_points 0..4 x dim 1..3, bounds inside or on [-h, h], h = 1, 2, 5 for every family, "
+        "dimension 3 with three different thresholds, per-axis sizes containing 1. "
         "non-trivial = grid built successfully with >= 5 points per axis; distinct = distinct (constructor, args, model, k)")
 NOT_PROVED = ["root-searched truncation bounds and probability-step axes (brentq) are compared/oracle-checked only",
-              "np.linspace / np.geomspace spacing is compared with the closed form, not proved"]
-ASSUMPTIONS = ["float midpoints 0.5*(a+b) are compared with the exact rational midpoint to 2^-40 relative"]
-TRUSTED = ["scipy.optimize.root_scalar, numpy.linspace/geomspace/insert"]
+              "np.linspace is proved in exact arithmetic (linspace_closed_form, uniformCtor_*): the float rounding of start + k*step and of "
+              "int(|l|/h) is compared (exactly where every float operation is exact, 2^-40 otherwise), not proved",
+              "np.geomspace (log10 / 10**) is not modelled: the geometric axes are compared with h (r/h)^(k/(n-1)) at 1e-12 in Python only",
+              "the probability-step constructor is not run with h beyond the support of the jump mass (Merton defaults, h = 1: the "
+              "normalising mass is 0.0, p_left is NaN and compute_right_axis does not terminate)"]
+ASSUMPTIONS = ["float midpoints 0.5*(a+b) are compared with the exact rational midpoint to 2^-40 relative",
+               "int(abs(l)/h), int(r/h) are modelled as truncations of the exact quotients of the doubles l, r, h; inputs whose rounded "
+               "float quotient lands on the other side of an integer are don't-care points of the correspondence (counted, not compared)",
+               "l < 0 in uniformCtor_wellFormed_partial / _iff: what the root search over [-100, -h/2] returns for h > 0"]
+TRUSTED = ["scipy.optimize.root_scalar, numpy.geomspace/insert/concatenate; numpy.linspace is compared with M on every run (c13.linspace.model)",
+           "unittest.mock.patch.object on rpylib.grid.spatial.compute_truncation (explicit-bounds probes only): the rest of "
+           "CTMCUniformGrid.__init__ runs unchanged"]
 
 
 def snapshot(g):
@@ -22,7 +42,7 @@ def snapshot(g):
                 trunc=[(float(a), float(b)) for a, b in g.truncations])
 
 
-def wellformed_oracle(ctx, probe, desc, g, cls):
+def wellformed_oracle(ctx, probe, desc, g, cls, mirrors_model=None):
     """the property on the implementation: strictly increasing, 0 at origin with -h / +h neighbours, ends = truncations"""
     s = snapshot(g)
     for k, ax in enumerate(s["axes"]):
@@ -37,12 +57,13 @@ def wellformed_oracle(ctx, probe, desc, g, cls):
         elif (ax[0], ax[-1]) != s["trunc"][k]:
             bad = f"end points {ax[0]}, {ax[-1]} differ from reported truncations {s['trunc'][k]}"
         if bad:
-            ctx.fail("oracle", probe, desc, {"axis": k, "what": bad, "axis_values": ax[:12]}, cls=cls)
+            ctx.fail("oracle", probe, desc, {"axis": k, "what": bad, "axis_values": ax[:12]}, cls=cls,
+                     mirrors_model=mirrors_model)
             return False
     return True
 
 
-def refine_probe(ctx, desc, g, kmax, cls):
+def refine_probe(ctx, desc, g, kmax, cls, check_wf=True):
     """C + S for refine(): k successive refinements of an already built grid"""
     arithmetic = not isinstance(g, zoo.CTMCGridProbabilityStep)
     before = snapshot(g)
@@ -74,7 +95,7 @@ def refine_probe(ctx, desc, g, kmax, cls):
             ctx.fail("oracle", "c13.refine.nesting", d, {"what": "h/origin/truncations", "before": {x: before[x] for x in ("h", "origin", "trunc")},
                                                       "after": {x: after[x] for x in ("h", "origin", "trunc")}}, cls=cls)
             return
-        if not wellformed_oracle(ctx, "c13.refine.wellformed", d, g, cls):
+        if check_wf and not wellformed_oracle(ctx, "c13.refine.wellformed", d, g, cls):
             return
         # ---- C: against M (arithmetic cell boundary only; the probability median is a root search)
         if arithmetic:
@@ -151,13 +172,403 @@ def nd_grid_probe(ctx, rng, kmax):
     cls["side_points_le_1"] = bool(min(o0, len(g.axes[0]) - 1 - o0) <= 1)
     cls["trunc_inside_h"] = bool(abs(l0) <= h or r0 <= h)
     cls["kind"] = kind                      # the 1-d known findings of these constructors apply to the shared axis as well
+    if kind == "uniform":
+        uniform_rootsearched_tie(ctx, d, g, cm_, h, tp, dim, cls)
     nd_tail_probability_oracle(ctx, d, g, margins, h, tp, cls)
     if wellformed_oracle(ctx, "c13.constructor.wellformed", d, g, cls) and len(g.axes[0]) <= 400:
         refine_probe(ctx, d, g, 1, cls)
 
 
+# ------------------------------------------------------------------------------------------ np.linspace / uniform ctor
+def _rep(q):
+    """is the rational q exactly a double?"""
+    try:
+        return Fraction(float(q)) == q
+    except OverflowError:
+        return False
+
+
+def exact_linspace(a, b, n):
+    """True when every float operation of np.linspace(a, b, n) is exact (delta, step, k*step, k*step+start)"""
+    if n < 2:
+        return True
+    A, B = Fraction(a), Fraction(b)
+    step = (B - A) / (n - 1)
+    return _rep(B - A) and _rep(step) and all(_rep(k * step) and _rep(A + k * step) for k in range(n))
+
+
+def points_agree(py_axis, m_axis, exact, scale):
+    if len(py_axis) != len(m_axis):
+        return False
+    if exact:
+        return all(fr(p) == q for p, q in zip(py_axis, m_axis))
+    return all(close(p, q, scale=max(abs(q), scale)) for p, q in zip(py_axis, m_axis))
+
+
+def linspace_case(ctx, d):
+    """C: np.linspace itself against M's closed form (exact when every float operation is exact)"""
+    a, b, n = d["a"], d["b"], d["n"]
+    out = rdl(ctx.lean(f"linspace {w(a)} {w(b)} {n}"))
+    py = [float(x) for x in np.linspace(a, b, n)]
+    exact = exact_linspace(a, b, n)
+    ctx.count("c13.linspace.model", d, nontrivial=n >= 3, branch=("exact" if exact else "rounded") + (f":n{n}" if n < 3 else ""))
+    if not points_agree(py, out, exact, max(abs(fr(a)), abs(fr(b)))):
+        ctx.fail("corr", "c13.linspace.model", d, {"name": "Drivers/C13 linspace vs numpy.linspace", "impl": py,
+                                                  "model": [str(x) for x in out], "exact": exact}, cls=dict(kind="linspace"))
+
+
+class _DimModel:
+    """stands in for the model argument of CTMCUniformGrid once compute_truncation is replaced: only the dimension is read"""
+    def __init__(self, d):
+        self.d = d
+
+    def dimension_model(self):
+        return self.d
+
+
+def uniform_with_bounds(l, r, h, dim):
+    """the real CTMCUniformGrid.__init__ (spatial.py:148-164) run with explicit truncation bounds: only the root search
+    `compute_truncation` is replaced (module attribute patched for the duration of the call; /repo is not touched)"""
+    with mock.patch.object(spatial, "compute_truncation", lambda model, h, truncation_probability=0.99999: (l, r)):
+        return spatial.CTMCUniformGrid(h=h, model=_DimModel(dim), truncation_probability=0.5)
+
+
+def quotient_is_dont_care(l, r, h):
+    """M takes int(|l|/h) as the floor of the exact quotient; when the rounded float quotient lands on the other side
+    of an integer the two differ by one point: a don't-care input for the correspondence"""
+    return (int(abs(l) / h), int(r / h)) != (math.trunc(Fraction(abs(l)) / Fraction(h)), math.trunc(Fraction(r) / Fraction(h)))
+
+
+def uniform_model_compare(ctx, d, g_or_exc, l, r, h, dim, cls, branch):
+    """C: the constructor's result (grid or exception) against `Drivers/C13 uniform`; returns (same, nL, nR)"""
+    out = ctx.lean(f"uniform {w(l)} {w(r)} {w(h)} {dim}").split(" ")
+    raised = isinstance(g_or_exc, Exception)
+    if out[0] == "raises":
+        nL, nR = int(out[1]), int(out[2])
+        ctx.count("c13.uniform.model", d, nontrivial=False, branch=branch + ":raises")
+        if not (raised and isinstance(g_or_exc, ValueError)):
+            ctx.fail("corr", "c13.uniform.model", d, {"name": "Drivers/C13 uniform", "what": "M: the constructor raises ValueError",
+                                                     "impl": repr(g_or_exc) if raised else snapshot(g_or_exc)}, cls=cls)
+            return False, nL, nR
+        return True, nL, nR
+    m_axes, m_o, nL, nR = rdll(out[0]), int(out[1]), int(out[2]), int(out[3])
+    ctx.count("c13.uniform.model", d, nontrivial=nL + nR >= 4, branch=f"{branch}:L{min(nL, 2)}R{min(nR, 2)}")
+    if raised:
+        ctx.fail("corr", "c13.uniform.model", d, {"name": "Drivers/C13 uniform", "what": "the constructor raises, M returns a grid",
+                                                 "impl": repr(g_or_exc), "model": out[1:]}, cls=cls)
+        return False, nL, nR
+    sn = snapshot(g_or_exc)
+    exact = exact_linspace(l, -h, nL) and exact_linspace(h, r, nR)
+    same = (len(sn["axes"]) == dim == len(m_axes) and sn["origin"] == [m_o] * dim and fr(sn["h"]) == fr(h)
+            and all(points_agree(a, b, exact, fr(h)) for a, b in zip(sn["axes"], m_axes)))
+    if not same:
+        ctx.fail("corr", "c13.uniform.model", d, {"name": "Drivers/C13 uniform vs CTMCUniformGrid.__init__", "exact": exact,
+                                                 "impl": {"axis": sn["axes"][0][:14], "origin": sn["origin"], "n": len(sn["axes"][0])},
+                                                 "model": {"axis": [str(x) for x in m_axes[0][:14]], "origin": m_o, "n": len(m_axes[0])}}, cls=cls)
+    return same, nL, nR
+
+
+def uniform_explicit_case(ctx, d, refine_k=0):
+    """C + S for the uniform constructor with explicit bounds (l, r): axis / origin / exceptions against M; the regular
+    case theorem (`uniformCtor_wellFormed_partial`) and the exact characterisation (`uniformCtor_wellFormed_iff`,
+    `uniformCtor_truncation`) checked on the implementation"""
+    l, r, h, dim = d["l"], d["r"], d["h"], d["dim"]
+    if quotient_is_dont_care(l, r, h):
+        ctx.branches["c13.uniform.model:dont_care_quotient"] += 1
+        return
+    try:
+        g = uniform_with_bounds(l, r, h, dim)
+    except Exception as e:  # noqa
+        g = e
+    cls = dict(kind="uniform", explicit=True)
+    same, nL, nR = uniform_model_compare(ctx, d, g, l, r, h, dim, cls, "explicit")
+    if isinstance(g, Exception):
+        return
+    cls["side_points_le_1"] = bool(min(nL, nR) <= 1)
+    cls["trunc_inside_h"] = bool(abs(l) <= h or r <= h)
+    ok = wellformed_oracle(ctx, "c13.constructor.wellformed", d, g, cls, mirrors_model=same)
+    sn = snapshot(g)
+    if nL >= 2 and nR >= 2:
+        # regular case: in addition to being well formed the axis starts at l, ends at r, has nL + 1 + nR points, pivot nL
+        bad = [k for k, ax in enumerate(sn["axes"]) if not (ax[0] == l and ax[-1] == r and len(ax) == nL + 1 + nR and sn["origin"][k] == nL)]
+        if ok and bad:
+            ctx.fail("oracle", "c13.uniform.regular", d, {"what": "end points / length / origin index of the regular uniform axis",
+                                                         "axis": sn["axes"][bad[0]][:14], "origin": sn["origin"], "nL": nL, "nR": nR}, cls=cls)
+            return
+    else:
+        # the recorded one-point-side region, characterised exactly by M's theorems
+        predicted = (nL >= 2 or (nL == 1 and l == -h)) and nR >= 1
+        ends = ((0.0 if nL == 0 else l), (0.0 if nR == 0 else h if nR == 1 else r))
+        if ok != predicted or any((ax[0], ax[-1]) != ends for ax in sn["axes"]):
+            ctx.fail("corr", "c13.uniform.one_point_side", d, {"name": "uniformCtor_wellFormed_iff / uniformCtor_truncation",
+                                                               "well_formed": ok, "predicted": predicted, "ends_predicted": list(ends),
+                                                               "axis": sn["axes"][0][:10], "nL": nL, "nR": nR}, cls=cls)
+            return
+    if ok and refine_k and len(sn["axes"][0]) <= 400:
+        refine_probe(ctx, d, g, refine_k, cls)
+
+
+def uniform_rootsearched_tie(ctx, d, g, model, h, tp, dim, cls):
+    """C for the un-patched constructor: repeat the (deterministic) root search, feed its (l, r) to M"""
+    l, r = spatial.compute_truncation(model=model, h=h, truncation_probability=tp)
+    l, r = float(l), float(r)
+    if not (math.isfinite(l) and math.isfinite(r)) or quotient_is_dont_care(l, r, h):
+        ctx.branches["c13.uniform.model:dont_care_quotient"] += 1
+        return
+    uniform_model_compare(ctx, dict(d, l=l, r=r), g, l, r, h, dim, cls, "rootsearched")
+
+
+def draw_uniform_explicit(rng):
+    """(l, r, h, dim): dyadic (every float operation exact or not), decimal, and the raising classes; the point counts
+    0, 1, 2 on each side are drawn as often as the regular ones"""
+    dim = rng.choice([1, 1, 2, 3])
+    style = rng.choice(["dyadic", "dyadic", "dyadic", "decimal", "decimal", "raise_many", "raise_negative"])
+    if style == "raise_many":
+        return dict(kind="uniform_explicit", l=-float(2 ** rng.randint(19, 22)), r=float(rng.randint(1, 9)), h=2.0 ** -rng.randint(8, 10), dim=dim)
+    if style == "raise_negative":
+        return dict(kind="uniform_explicit", l=-rng.randint(1, 40) / 8, r=-rng.randint(1, 40) / 8, h=rng.choice([0.25, 0.5, 1.0]), dim=dim)
+
+    def side(h):
+        n = rng.choice([0, 1, 1, 2, 2, 3, 4, 5, 8, 13])
+        if style == "dyadic":
+            frac = rng.choice([0, 0, 1, 3, 5, 7]) / 8            # bound = (n + frac) h: n points; frac = 0: bound on the lattice
+            return (n + frac) * h if n + frac > 0 else h / 2
+        return max((n + rng.random()) * h, 0.51 * h)
+    h = 2.0 ** -rng.randint(0, 5) if style == "dyadic" else rng.choice([0.1, 0.2, 0.05, 0.3, 0.02])
+    return dict(kind="uniform_explicit", l=-side(h), r=side(h), h=h, dim=dim)
+
+
+WITNESSES = [   # (l, r, h) of Proofs/C13.lean: uniformCtor_one_left_point, uniformCtor_no_left_point, uniformCtor_one_right_point
+    ((-1.5, 2.5, 1.0), [-1.5, 0.0, 1.0, 2.5], 1, False),
+    ((-0.75, 2.5, 1.0), [0.0, 1.0, 2.5], 0, False),
+    ((-2.5, 1.5, 1.0), [-2.5, -1.0, 0.0, 1.0], 2, True),
+]
+
+
+def witness_probe(ctx):
+    """the negation witnesses of the full-strength statement, reproduced on the real constructor (exactly)"""
+    for (l, r, h), axis, origin, wf in WITNESSES:
+        d = dict(kind="uniform_explicit", l=l, r=r, h=h, dim=1, witness=True)
+        g = uniform_with_bounds(l, r, h, 1)
+        sn = snapshot(g)
+        ctx.count("c13.uniform.witness", d, nontrivial=True)
+        if sn["axes"] != [axis] or sn["origin"] != [origin]:
+            ctx.fail("corr", "c13.uniform.witness", d, {"name": "uniformCtor_one_left_point / no_left_point / one_right_point",
+                                                       "impl": sn, "theorem": {"axis": axis, "origin": origin}}, cls=dict(kind="uniform"))
+            continue
+        uniform_explicit_case(ctx, d)        # -> known finding C13-uniform-one-point-side where not well formed
+        if wf and (sn["axes"][0][-1] == r):
+            ctx.fail("corr", "c13.uniform.witness", d, {"name": "uniformCtor_truncation_full_false", "impl": sn}, cls=dict(kind="uniform"))
+
+
+def geometric_closed_form(ctx, d, g, h, nb, cls):
+    """np.geomspace is compared only (not modelled in Lean): x_k = h (r/h)^(k/(n-1)), ends exact; left half mirrored"""
+    for k, ax in enumerate(zoo.axis_list(g)):
+        o = int(list(g.origin_coordinate)[k]) if hasattr(g.origin_coordinate, "__iter__") else int(g.origin_coordinate)
+        left, right = ax[:o], ax[o + 1:]
+        l, r = ax[0], ax[-1]
+        exp_r = [h * (r / h) ** (i / (nb - 1)) for i in range(nb)]
+        exp_l = [-(abs(l) * (h / abs(l)) ** (i / (nb - 1))) for i in range(nb)]
+        ok = (len(left) == nb == len(right) and right[0] == h and left[-1] == -h
+              and all(math.isclose(a, b, rel_tol=1e-12) for a, b in zip(right, exp_r))
+              and all(math.isclose(a, b, rel_tol=1e-12) for a, b in zip(left, exp_l)))
+        if not ok:
+            ctx.fail("corr", "c13.geometric.closed_form", d, {"name": "geometric progression h (r/h)^(k/(n-1))", "axis": ax,
+                                                             "expected_right": exp_r, "expected_left": exp_l}, cls=cls)
+            return
+
+
+# ------------------------------------------------------------------------------------------ object reuse, edge arguments
+def _origins(g):
+    oc = g.origin_coordinate
+    return [int(c) for c in oc] if hasattr(oc, "__iter__") else [int(oc)]
+
+
+def reuse_case(ctx, d, make, cls, k1, k2):
+    """histories over grid objects: two objects from the same arguments, one refined, deep-copied, copy refined,
+    original refined again; no object may see another one's refinement and equal histories must give equal grids"""
+    def bad(what, **kw):
+        ctx.fail("oracle", "c13.reuse", d, dict(what=what, **kw), cls=cls)
+    try:
+        gA, gB = make(), make()
+    except Exception as e:      # constructor rejects these arguments
+        ctx.branches[f"c13.ctor_raises:{d['kind']}:{type(e).__name__}"] += 1
+        return
+    s0 = snapshot(gA)
+    ctx.count("c13.reuse", d, nontrivial=min(len(a) for a in s0["axes"]) >= 3, branch=d["kind"])
+    if snapshot(gB) != s0:
+        return bad("two constructions from equal arguments differ", a=s0, b=snapshot(gB))
+    refine_probe(ctx, dict(d, obj="A"), gA, k1, cls)
+    if snapshot(gB) != s0:
+        return bad("refining one grid object changed another one built from the same arguments", before=s0, after=snapshot(gB))
+    s1 = snapshot(gA)
+    gC = copy.deepcopy(gA)
+    if snapshot(gC) != s1:
+        return bad("deep copy differs from the original", orig=s1, copy=snapshot(gC))
+    refine_probe(ctx, dict(d, obj="copy"), gC, k2, cls)
+    if snapshot(gA) != s1:
+        return bad("refining the deep copy changed the original", before=s1, after=snapshot(gA))
+    refine_probe(ctx, dict(d, obj="B"), gB, k1, cls)
+    if snapshot(gB) != s1:
+        return bad("equal histories (same arguments, same number of refinements) give different grids", a=s1, b=snapshot(gB))
+    refine_probe(ctx, dict(d, obj="A-again"), gA, k2, cls)
+    if snapshot(gA) != snapshot(gC):
+        return bad("original refined after the copy differs from the copy refined the same number of times",
+                   orig=snapshot(gA), copy=snapshot(gC))
+
+
+def draw_reuse(rng):
+    """(description, factory, cls) for the reuse probe - cheap constructors of every kind"""
+    kind = rng.choice(["fixed", "geometric_bounds", "uniform_explicit", "credit", "synthetic", "probstep", "uniform"])
+    if kind == "fixed":
+        d = dict(kind="fixed", h=rng.choice([0.5, 0.1, 0.25]), nb=rng.choice([3, 4, 5, 9]), dim=rng.choice([1, 2, 3]))
+        return d, (lambda: zoo.make_grid("fixed", None, d["h"], nb_of_points=d["nb"], dimension=d["dim"])[0]), dict(kind="fixed")
+    if kind == "geometric_bounds":
+        d = dict(kind="geometric_bounds", h=rng.choice([0.1, 0.125]), nb=rng.choice([2, 3, 5]), dim=rng.choice([1, 2, 3]),
+                 tr=[-rng.choice([0.5, 1.0]), rng.choice([0.75, 3.0])])
+        return d, (lambda: zoo.make_grid("geometric_bounds", None, d["h"], nb=d["nb"], truncations=tuple(d["tr"]), dimension=d["dim"])[0]), \
+            dict(kind="geometric_bounds", trunc_inside_h=False)
+    if kind == "uniform_explicit":
+        h = rng.choice([0.25, 0.5, 0.1])
+        d = dict(kind="uniform_explicit", h=h, l=-(rng.randint(2, 6) + rng.choice([0, 0.5])) * h, r=(rng.randint(2, 6) + rng.choice([0, 0.25])) * h,
+                 dim=rng.choice([1, 2, 3]))
+        return d, (lambda: uniform_with_bounds(d["l"], d["r"], d["h"], d["dim"])), dict(kind="uniform", side_points_le_1=False)
+    if kind == "synthetic":
+        nl, nr = rng.randint(1, 4), rng.randint(1, 4)
+        h = rng.choice([1.0, 0.5])
+        ax = [-(h + i * 0.75) for i in range(nl)][::-1] + [0.0] + [h + i * 1.25 for i in range(nr)]
+        d = dict(kind="synthetic", axis=ax, h=h, origin=nl, dim=rng.choice([1, 2]), shared=rng.random() < 0.5)
+
+        def mk():
+            a = np.array(d["axis"])
+            return zoo.CTMCGrid(h=d["h"], origin_coordinate=d["origin"], axes=[a] * d["dim"] if d["shared"] else [a.copy() for _ in range(d["dim"])])
+        return d, mk, dict(kind="synthetic")
+    fam = rng.choice(["hem", "vg", "cgmy"])
+    model = zoo.make_levy(fam, {})
+    if kind == "credit":
+        d = dict(kind="credit", family=fam, params={}, h=0.1, a=-rng.choice([0.25, 0.3, 0.5]), sym=True)
+        return d, (lambda: zoo.make_grid("credit", model, d["h"], level_a=d["a"])[0]), dict(kind="credit", family=fam)
+    if kind == "probstep":
+        d = dict(kind="probstep", family=fam, params={}, h=0.1, mps=rng.choice([0.1, 0.2]))
+        return d, (lambda: zoo.make_grid("probstep", model, d["h"], minimum_probability_step=d["mps"])[0]), dict(kind="probstep", family=fam)
+    d = dict(kind="uniform", family=fam, params={}, h=0.05, tp=0.99999)
+    return d, (lambda: zoo.make_grid("uniform", model, d["h"], truncation_probability=d["tp"])[0]), dict(kind="uniform", family=fam, side_points_le_1=False)
+
+
+def edge_probe(ctx, rng):
+    """edge arguments, the same list in every run: tiny fixed grids, bounds inside [-h, h], h larger than the truncation
+    range, dimension 3 with three different thresholds, per-axis sizes containing 1"""
+    # fixed: nb_of_points 0..4 (0, 1 -> the one-point grid [0]; 2, 3 -> [-h, 0, h]), every dimension
+    for nb in (0, 1, 2, 3, 4):
+        for dim in (1, 2, 3):
+            h = rng.choice([0.5, 0.1, 0.25])
+            g, d = zoo.make_grid("fixed", None, h, nb_of_points=nb, dimension=dim)
+            cls = dict(kind="fixed", edge=True)
+            ctx.count("c13.constructor", d, nontrivial=nb >= 2, branch=f"fixed:nb{nb}")
+            out = ctx.lean(f"fixed {w(h)} {nb} {dim}").split(" ")
+            m_axes, m_o = rdll(out[0]), int(out[1])
+            sn = snapshot(g)
+            if not (sn["origin"] == [m_o] * dim and len(m_axes) == dim and all(points_agree(a, b, False, fr(h)) for a, b in zip(sn["axes"], m_axes))):
+                ctx.fail("corr", "c13.fixed.model", d, {"name": "Drivers/C13 fixed", "impl": sn, "model": out}, cls=cls)
+                continue
+            if nb >= 2:        # a one-point grid has no neighbours of 0: outside the property's reach, compared with M only
+                if wellformed_oracle(ctx, "c13.constructor.wellformed", d, g, cls):
+                    refine_probe(ctx, d, g, 2, cls)
+            else:
+                refine_probe(ctx, d, g, 2, cls, check_wf=False)
+    # user-supplied bounds inside / on [-h, h]
+    for h, tr in ((2.0, (-0.5, 0.75)), (0.5, (-0.5, 0.75)), (0.5, (-1.0, 0.5)), (0.5, (-1.0, 0.75))):
+        for dim in (1, 3):
+            nb = rng.choice([2, 3, 5])
+            g, d = zoo.make_grid("geometric_bounds", None, h, nb=nb, truncations=tr, dimension=dim)
+            cls = dict(kind="geometric_bounds", edge=True, trunc_inside_h=bool(abs(tr[0]) <= h or tr[1] <= h))
+            ctx.count("c13.constructor", d, nontrivial=True, branch="geometric_bounds:inside_h" if cls["trunc_inside_h"] else "geometric_bounds")
+            if wellformed_oracle(ctx, "c13.constructor.wellformed", d, g, cls):
+                geometric_closed_form(ctx, d, g, h, nb, cls)
+                refine_probe(ctx, d, g, 1, cls)
+    # h larger than the root-searched truncation range (every family; not the probability-step grid: see NOT_PROVED)
+    for fam in zoo.FAMILIES:
+        model = zoo.make_levy(fam, {})
+        for kind in ("uniform", "geometric", "credit"):
+            h = rng.choice([1.0, 2.0, 5.0])
+            kw = dict(truncation_probability=0.999) if kind != "credit" else dict(level_a=-0.3)
+            if kind == "geometric":
+                kw["nb"] = 3
+            desc = dict(family=fam, params={})
+            cls = dict(kind=kind, family=fam, edge=True)
+            with np.errstate(all="ignore"):
+                g, d = build(ctx, kind, model, h, cls, desc, **kw)
+            if g is None:
+                continue
+            o0 = _origins(g)[0]
+            l0, r0 = (float(x) for x in g.truncations[0])
+            cls["side_points_le_1"] = bool(min(o0, len(g.axes[0]) - 1 - o0) <= 1)
+            cls["trunc_inside_h"] = bool(abs(l0) <= h or r0 <= h)
+            if kind == "credit":
+                cls["threshold_inside_h"] = bool(kw["level_a"] >= -h)
+            ctx.count("c13.constructor", d, nontrivial=len(g.axes[0]) >= 5, branch=kind + ":large_h")
+            if kind == "uniform":
+                with np.errstate(all="ignore"):
+                    uniform_rootsearched_tie(ctx, d, g, model, h, kw["truncation_probability"], 1, cls)
+            if wellformed_oracle(ctx, "c13.constructor.wellformed", d, g, cls) and len(g.axes[0]) <= 400:
+                refine_probe(ctx, d, g, 1, cls)
+    # dimension 3, three different thresholds, both variants
+    margins = [zoo.make_levy(f, {}) for f in ("hem", "vg", "cgmy")]
+    for sym in (True, False):
+        a = [-0.25, -0.3, -0.4]
+        rng.shuffle(a)
+        credit_nd_case(ctx, dict(kind="credit_nd", dim=3, h=0.05, a=a, sym=sym, margins=[type(m).__name__ for m in margins]),
+                       margins, rng.choice(zoo.COPULAS), 2)
+    # per-axis sizes containing 1 (origin index 0 on every axis: right-only axes and the one-point axis [0])
+    for sizes in ((1,), (1, 1), (4, 1), (1, 3, 1), (2, 1, 5)):
+        h = rng.choice([1.0, 0.5])
+        axes = [np.array([0.0] + list(np.cumsum([h] + [rng.randint(1, 64) / 64 for _ in range(n - 2)]))[: n - 1]) for n in sizes]
+        d = dict(kind="synthetic_sizes", axes=[[float(x) for x in a] for a in axes], h=h, origin=0, sizes=list(sizes))
+        g = zoo.CTMCGrid(h=h, origin_coordinate=0, axes=axes)
+        refine_probe(ctx, d, g, 3, dict(kind="synthetic"), check_wf=False)
+
+
+def credit_nd_case(ctx, d, margins, copula, kref):
+    dim, h, a, sym = d["dim"], d["h"], list(d["a"]), d["sym"]
+    cls = dict(kind="credit_nd", sym=sym)
+    cm_ = zoo.make_copula_model(margins, zoo.make_copula(copula))
+    try:
+        g = zoo.CTMCCredit(h=h, level_a=a, model=cm_, symmetric_grid=sym)
+    except Exception as e:
+        ctx.branches[f"c13.ctor_raises:credit_nd:{type(e).__name__}"] += 1
+        return
+    ctx.count("c13.constructor", d, branch="credit_nd" + (":3thresholds" if len(set(a)) == 3 else ""))
+    l_, r_ = g.truncations[0]
+    cls["mirror_exceeds_r"] = bool(sym and any(-ai + min(abs(l_ - ai) / 2, abs(ai + h) / 2) >= r_ for ai in a))
+    nd_tail_probability_oracle(ctx, d, g, margins, h, 0.99999, cls)
+    if wellformed_oracle(ctx, "c13.constructor.wellformed", d, g, cls):
+        s = snapshot(g)
+        for i, ax in enumerate(s["axes"]):
+            out = rdl(ctx.lean(f"credit {w(s['trunc'][i][0])} {w(a[i])} {w(h)} {w(s['trunc'][i][1])} {1 if sym else 0}"))
+            if not (len(out) == len(ax) and all(close(p, q) for p, q in zip(ax, out))):
+                ctx.fail("corr", "c13.credit.model", d, {"name": "Drivers/C13 credit", "impl": ax, "model": [str(x) for x in out]}, cls=cls)
+        refine_probe(ctx, d, g, kref, cls)
+
+
 def run(ctx):
     rng = ctx.rng
+    # np.linspace and the uniform constructor with explicit bounds against M; the theorems' witnesses on the real code
+    witness_probe(ctx)
+    for nL in range(4):          # every pair of point counts 0..3, bound off / on the lattice of h (on: l = -h is "one point, well formed")
+        for nR in range(4):
+            for frac in (0.5, 0.0):
+                h = rng.choice([0.5, 0.25, 1.0])
+                uniform_explicit_case(ctx, dict(kind="uniform_explicit", l=-((nL + frac) * h or h / 2), r=(nR + frac) * h or h / 2, h=h,
+                                                dim=rng.choice([1, 2, 3])), refine_k=1)
+    for _ in range(ctx.n(60, 600)):
+        a, b = (rng.randint(-64, 64) / 8, rng.randint(-64, 64) / 8) if rng.random() < 0.6 else (round(rng.uniform(-5, 5), 2), round(rng.uniform(-5, 5), 3))
+        linspace_case(ctx, dict(kind="linspace", a=a, b=b, n=rng.choice([0, 1, 2, 3, 4, 5, 6, 7, 9, 12, 17, 33])))
+    for _ in range(ctx.n(120, 1500)):
+        uniform_explicit_case(ctx, draw_uniform_explicit(rng), refine_k=rng.choice([0, 0, 1, 2]))
+    edge_probe(ctx, rng)
+    for _ in range(ctx.n(8, 60)):
+        d, make, cls = draw_reuse(rng)
+        reuse_case(ctx, d, make, cls, rng.randint(1, 2), rng.randint(1, 2))
     for _ in range(ctx.n(6, 40)):
         nd_grid_probe(ctx, rng, 1)
     nmodels = ctx.n(10, 60)
@@ -195,10 +606,14 @@ def run(ctx):
             cls["side_points_le_1"] = bool(min(o0, len(g.axes[0]) - 1 - o0) <= 1)
             cls["trunc_inside_h"] = bool(abs(l0) <= h or r0 <= h)
             ctx.count("c13.constructor", d, nontrivial=len(g.axes[0]) >= 5, branch=kind)
+            if kind == "uniform":
+                uniform_rootsearched_tie(ctx, d, g, model, h, kw["truncation_probability"], 1, cls)
             if not wellformed_oracle(ctx, "c13.constructor.wellformed", d, g, cls):
                 continue
             if kind in ("uniform", "geometric"):
                 tail_probability_oracle(ctx, d, g, model, kw["truncation_probability"], cls)
+            if kind in ("geometric", "geometric_bounds"):
+                geometric_closed_form(ctx, d, g, h, kw["nb"], cls)
             if kind == "fixed":
                 out = ctx.lean(f"fixed {w(h)} {kw['nb_of_points']} {dim}").split(" ")
                 m_axes, m_o = rdll(out[0]), int(out[1])
@@ -282,6 +697,15 @@ def replay(ctx, rec):
     """re-run the probe of a replay / corpus record"""
     d = rec["input"]
     cls = rec.get("cls", {})
+    if d.get("kind") == "linspace":
+        return linspace_case(ctx, d)
+    if d.get("kind") == "uniform_explicit" and "obj" not in d:
+        return uniform_explicit_case(ctx, {k: v for k, v in d.items() if k != "k"}, refine_k=d.get("k", 2))
+    if d.get("kind") == "synthetic_sizes":
+        g = zoo.CTMCGrid(h=d["h"], origin_coordinate=0, axes=[np.array(a) for a in d["axes"]])
+        return refine_probe(ctx, {k: v for k, v in d.items() if k != "k"}, g, d.get("k", 3), cls, check_wf=False)
+    if "obj" in d or rec.get("probe") == "c13.reuse":
+        return replay_reuse(ctx, {k: v for k, v in d.items() if k not in ("k", "obj")}, cls)
     if d.get("kind") == "synthetic":
         axis = np.array(d["axis"])
         axes = [axis] * d["dim"] if d["shared"] else [axis.copy() for _ in range(d["dim"])]
@@ -309,3 +733,26 @@ def replay(ctx, rec):
             g = zoo.CTMCCredit(h=d["h"], level_a=list(d["a"]), model=cm_, symmetric_grid=d["sym"])
             if wellformed_oracle(ctx, "c13.constructor.wellformed", d, g, cls):
                 refine_probe(ctx, {k: v for k, v in d.items() if k != "k"}, g, d.get("k", 2), cls)
+
+
+def replay_reuse(ctx, d, cls):
+    """rebuild the factory of a reuse record from its description and run every (k1, k2) history"""
+    kind = d["kind"]
+    if kind == "fixed":
+        make = lambda: zoo.make_grid("fixed", None, d["h"], nb_of_points=d["nb"], dimension=d["dim"])[0]
+    elif kind == "geometric_bounds":
+        make = lambda: zoo.make_grid("geometric_bounds", None, d["h"], nb=d["nb"], truncations=tuple(d["tr"]), dimension=d["dim"])[0]
+    elif kind == "uniform_explicit":
+        make = lambda: uniform_with_bounds(d["l"], d["r"], d["h"], d["dim"])
+    elif kind == "synthetic":
+        def make():
+            a = np.array(d["axis"])
+            return zoo.CTMCGrid(h=d["h"], origin_coordinate=d["origin"], axes=[a] * d["dim"] if d["shared"] else [a.copy() for _ in range(d["dim"])])
+    else:
+        model = zoo.make_levy(d["family"], d["params"])
+        kw = {"credit": dict(level_a=d.get("a")), "probstep": dict(minimum_probability_step=d.get("mps")),
+              "uniform": dict(truncation_probability=d.get("tp"))}[kind]
+        make = lambda: zoo.make_grid(kind, model, d["h"], **kw)[0]
+    for k1 in (1, 2):
+        for k2 in (1, 2):
+            reuse_case(ctx, d, make, cls, k1, k2)
